@@ -752,7 +752,7 @@ Proof.
 Qed.
 
 Definition assign_faults (src : nat) (w : world) : list step :=
-  flat_map (fun _ : nat => [Fault FAlloc; Fault FUserCopy]) (seq 0 (obj_keys src w))
+  flat_map (fun _ : nat => [Fault FAlloc; Fault FUserCopy]) (seq 0 (key_points src w))
   ++ flat_map (fun _ : nat => [Fault FAlloc; Fault FUserCopy]) (seq 0 (obj_size src w)).
 
 Lemma disp_assign_shape dst src w :
@@ -762,7 +762,7 @@ Proof. unfold prof_disp_assign, assign_faults. rewrite <- app_assoc. reflexivity
 Lemma assign_faults_only src w : forallb is_fault (assign_faults src w) = true.
 Proof.
   unfold assign_faults. rewrite forallb_app. apply andb_true_iff. split.
-  - induction (seq 0 (obj_keys src w)); simpl; [reflexivity|assumption].
+  - induction (seq 0 (key_points src w)); simpl; [reflexivity|assumption].
   - induction (seq 0 (obj_size src w)); simpl; [reflexivity|assumption].
 Qed.
 
@@ -886,4 +886,89 @@ Proof.
   - unfold prof_hcl_copy_steps. simpl. rewrite <- ?app_assoc. apply SF; [reflexivity|]. apply SC; reflexivity.
   - unfold op_hcl_assign, op_hcl_assign_with, prof_hcl_assign_with, prof_hcl_copy_steps. simpl. rewrite <- ?app_assoc.
     apply SF; [reflexivity|]. apply SC; reflexivity.
+Qed.
+
+(* ------------------------------------------------------------------ the profile, run without a fault, IS the operation *)
+
+Definition obsn (w : world) := (obs w, wnext w).
+
+Lemma run_done steps : forall k gs w, nfaults steps <= k ->
+  run steps k gs w = Done (unwind false (fst (after steps gs w)) (snd (after steps gs w))).
+Proof.
+  unfold nfaults. induction steps as [|s r IH]; intros k gs w H; simpl in *; [reflexivity|].
+  destruct s; simpl in *; try (apply IH; assumption).
+  - destruct k as [|k']; [lia|]. apply IH. lia.
+  - destruct gs; apply IH; assumption.
+Qed.
+
+Definition pure_only (s : step) : bool := match s with Fault _ | Hidden _ | Local _ => true | _ => false end.
+
+Lemma after_pure l : forallb pure_only l = true -> forall gs w, fst (after l gs w) = gs /\ obsn (snd (after l gs w)) = obsn w.
+Proof.
+  induction l as [|s r IH]; intros H gs w; simpl in *; [split; reflexivity|].
+  apply andb_true_iff in H. destruct H as [H1 H2]. destruct s; try discriminate.
+  - apply IH. exact H2.
+  - destruct (IH H2 gs (set_hid w (f (whid w)))) as [A B]. split; [exact A|rewrite B; reflexivity].
+  - destruct (IH H2 gs (set_tmp w (f (wtmp w)))) as [A B]. split; [exact A|rewrite B; reflexivity].
+Qed.
+
+Lemma po_clone n : forallb pure_only (clone_steps n) = true.
+Proof. induction n; simpl; [reflexivity|exact IHn]. Qed.
+Lemma po_flat (g : nat -> list step) l : (forall i, forallb pure_only (g i) = true) -> forallb pure_only (flat_map g l) = true.
+Proof. intros H. induction l as [|x t IH]; simpl; [reflexivity|]. rewrite forallb_app, H, IH. reflexivity. Qed.
+
+Lemma copy_obj_obsn src dst w1 w2 : obsn w1 = obsn w2 -> obsn (copy_obj src dst w1) = obsn (copy_obj src dst w2).
+Proof.
+  unfold obsn, obs. intros H. injection H as H1 H2 H3 H4 H5 H6 H7. unfold copy_obj. rewrite H1, H7.
+  destruct (copy_entries src dst (wnext w2) (wl w2)) as [new n']. simpl. congruence.
+Qed.
+
+(* pure steps, then Commit (copy_obj src dst), then only Hidden steps, all inside the scratch scope *)
+Lemma copy_profile_effect src dst P tail w :
+  forallb pure_only P = true -> forallb pure_only tail = true ->
+  forall k, nfaults (Enter GScratch :: P ++ Commit (copy_obj src dst) :: tail) <= k ->
+  exists w', run (Enter GScratch :: P ++ Commit (copy_obj src dst) :: tail) k [] w = Done w' /\ obsn w' = obsn (copy_obj src dst w).
+Proof.
+  intros HP HT k Hk. rewrite run_done by exact Hk. eexists. split; [reflexivity|].
+  simpl. rewrite after_app. destruct (after_pure P HP [GScratch] w) as [A B]. rewrite A. simpl.
+  set (w1 := snd (after P [GScratch] w)) in *.
+  destruct (after_pure tail HT [GScratch] (keep_private w1 (copy_obj src dst w1))) as [C D]. rewrite C. simpl.
+  assert (X : forall x, obsn (set_tmp x []) = obsn x) by reflexivity. rewrite X, D.
+  assert (Y : obsn (keep_private w1 (copy_obj src dst w1)) = obsn (copy_obj src dst w1)) by reflexivity. rewrite Y.
+  apply copy_obj_obsn. exact B.
+Qed.
+
+Definition effect_by_profile (o : opn) : bool := match o with ODAssign _ _ => false | _ => true end.
+
+(* for every operation of a fault plan (the member-wise dispatcher assignment aside, whose intermediate
+   state is unspecified): the profile run with no failing point has exactly the operation's specified
+   effect on the observable world *)
+Theorem profile_effect o w : effect_by_profile o = true -> obsn (apply_done o w) = obsn (spec_effect o w).
+Proof.
+  intros H. destruct o; try discriminate H; try (destruct place as [|[|p]]); try (destruct ordered); try reflexivity; unfold apply_done.
+  - (* CallbackList copy construction *)
+    destruct (copy_profile_effect src dst (clone_steps (obj_size src w)) [] w (po_clone _) eq_refl _ (Nat.le_refl _)) as [w' [E1 E2]].
+    change (op_steps (op_of (OClCopyCtor dst src) w)) with (Enter GScratch :: clone_steps (obj_size src w) ++ [Commit (copy_obj src dst)]).
+    rewrite E1. exact E2.
+  - destruct (copy_profile_effect src dst (clone_steps (obj_size src w)) [Hidden S] w (po_clone _) eq_refl _ (Nat.le_refl _)) as [w' [E1 E2]].
+    change (op_steps (op_of (OClAssign dst src) w)) with (Enter GScratch :: clone_steps (obj_size src w) ++ [Commit (copy_obj src dst); Hidden S]).
+    rewrite E1. exact E2.
+  - assert (HP : forallb pure_only (flat_map (fun _ : nat => [Fault FAlloc; Fault FUserCopy]) (seq 0 (key_points src w)) ++ clone_steps (obj_size src w)) = true)
+      by (rewrite forallb_app, po_flat, po_clone by (intros; reflexivity); reflexivity).
+    destruct (copy_profile_effect src dst _ [] w HP eq_refl _ (Nat.le_refl _)) as [w' [E1 E2]].
+    change (op_steps (op_of (ODCopyCtor dst src) w)) with
+      (Enter GScratch :: flat_map (fun _ : nat => [Fault FAlloc; Fault FUserCopy]) (seq 0 (key_points src w)) ++ clone_steps (obj_size src w) ++ [Commit (copy_obj src dst)]).
+    rewrite app_assoc. rewrite E1. exact E2.
+  - assert (HP : forallb pure_only (flat_map (fun _ : nat => [Fault FAlloc]) (seq 0 (key_points src w)) ++ clone_steps (obj_size src w)) = true)
+      by (rewrite forallb_app, po_flat, po_clone by (intros; reflexivity); reflexivity).
+    destruct (copy_profile_effect src dst _ [] w HP eq_refl _ (Nat.le_refl _)) as [w' [E1 E2]].
+    change (op_steps (op_of (OHCopyCtor dst src) w)) with
+      (Enter GScratch :: (flat_map (fun _ : nat => [Fault FAlloc]) (seq 0 (key_points src w)) ++ clone_steps (obj_size src w)) ++ [Commit (copy_obj src dst)]).
+    rewrite E1. exact E2.
+  - assert (HP : forallb pure_only (flat_map (fun _ : nat => [Fault FAlloc]) (seq 0 (key_points src w)) ++ clone_steps (obj_size src w)) = true)
+      by (rewrite forallb_app, po_flat, po_clone by (intros; reflexivity); reflexivity).
+    destruct (copy_profile_effect src dst _ [Hidden S] w HP eq_refl _ (Nat.le_refl _)) as [w' [E1 E2]].
+    change (op_steps (op_of (OHAssign dst src) w)) with
+      (Enter GScratch :: (flat_map (fun _ : nat => [Fault FAlloc]) (seq 0 (key_points src w)) ++ clone_steps (obj_size src w)) ++ [Commit (copy_obj src dst); Hidden S]).
+    rewrite E1. exact E2.
 Qed.
